@@ -97,11 +97,18 @@ func c01T1(r *Run, rep *core.Report) {
 		// a result that is itself a comparison term stands for both of its outcomes
 		var expanded []sym.Path
 		for _, p := range paths {
-			if len(p.Ret) == 1 && p.Ret[0].Op == "cmp" {
+			ret, negRet := (*sym.Term)(nil), false
+			if len(p.Ret) == 1 {
+				ret = p.Ret[0]
+				for ret.Op == "not" && len(ret.Args) == 1 {
+					ret, negRet = ret.Args[0], !negRet
+				}
+			}
+			if ret != nil && ret.Op == "cmp" {
 				for _, v := range []bool{true, false} {
 					q := p
-					q.PC = append(append([]sym.Atom(nil), p.PC...), sym.Atom{T: p.Ret[0], V: v})
-					q.Ret = []*sym.Term{sym.Bool(v)}
+					q.PC = append(append([]sym.Atom(nil), p.PC...), sym.Atom{T: ret, V: v})
+					q.Ret = []*sym.Term{sym.Bool(v != negRet)}
 					expanded = append(expanded, q)
 				}
 			} else {
@@ -109,6 +116,7 @@ func c01T1(r *Run, rep *core.Report) {
 			}
 		}
 		paths = expanded
+		nParts, nNeg, whyNeg := 0, 0, ""
 		for _, p := range paths {
 			if len(p.Problems) > 0 {
 				okAll, why = false, "unmodelled: "+p.Problems[0]
@@ -147,12 +155,20 @@ func c01T1(r *Run, rep *core.Report) {
 				}
 			}
 			want := sign != nil && *sign && clock != nil && *clock
+			nParts++
 			if b != want {
-				okAll, why = false, fmt.Sprintf("on the partition [%s] the predicate returns %v, 'e > 0 and now > e' is %v", sym.DescribePC(p.PC), b, want)
+				nNeg++
+				whyNeg = fmt.Sprintf("on the partition [%s] the predicate returns %v, 'e > 0 and now > e' is %v", sym.DescribePC(p.PC), b, want)
 			}
 			if sign == nil {
 				okAll, why = false, "the predicate does not test e > 0 first: an item without expiration (e = 0) would be compared against the clock"
 			}
+		}
+		// a liveness predicate - the exact complement of the expiry predicate on every partition ("e <= 0 || now <= e") - says the
+		// same thing with the other polarity; its callers are judged on the comparisons it makes (the evaluator looks through
+		// it). A predicate that is the complement on some partitions only deviates.
+		if nNeg > 0 && !(okAll && nNeg == nParts) {
+			okAll, why = false, whyNeg
 		}
 		rep.Check(okAll, "C01.T1", fn(f)+" decides e>0 && now>e", r.P.Pos(f.Pos()), fmt.Sprintf("%d partitions, all equal to 'e > 0 and now > e' (strictly later)", len(paths)), "expiry predicate deviates: "+why)
 	}
